@@ -633,7 +633,20 @@ FormatterToXML::accumCharUTF(XalanDOMChar   ch)
 
     if(m_pos == s_maxBufferSize)
     {
-        flushChars();
+        if (0xd800u <= ch && ch < 0xdc00u)
+        {
+            // Don't separate the halves of a surrogate pair.  The
+            // transcoder cannot do anything with half of one.
+            --m_pos;
+
+            flushChars();
+
+            m_charBuf[m_pos++] = ch;
+        }
+        else
+        {
+            flushChars();
+        }
     }
 }
 
